@@ -49,6 +49,7 @@ func and(ps ...func(*ssa.Call) bool) func(*ssa.Call) bool {
 }
 
 func runC21(c *core.Ctx) {
+	checkQuitUnregisters(c, "C21.quit-unregisters")
 	fn := c.Fn(pkCCM, "ImportExTransfer")
 	cib := eng.Obj(c, pkCCMCom, "CheckIfChainBlacked")
 	gsc := eng.Obj(c, pkSCM, "GetSideChain")
